@@ -32,6 +32,8 @@ def check(run):
         found = True
         run.violation("c08:labels:%s" % ",".join(f["labels"]), f["error"], {"harness": "rt_c08.py", "payload": {"mode": "random", "seed": run.seed, "n_random": 400}})
     groups = genjobs.job_groups(tier, run.seed, n_random=2 if tier == "quick" else 8)
+    for g in groups:
+        g[-1]["repeat"] = True          # the largest complexity of every library is generated twice into the same directory
     root = run.fresh_copy()
     calls = [("rt_c08.py", {"mode": "library", "jobs": g}, {"root": root, "timeout": 3000}) for g in groups]
     for g, rr in zip(groups, harness_many(run, calls)):
